@@ -42,6 +42,15 @@ static void verif_free(void *p) { int found = 0;
 """
 
 
+MDRAM_STUB_H = r"""
+#ifndef VERIF_CUSTOM_MALLOC_STUB
+#define VERIF_CUSTOM_MALLOC_STUB
+#define malloc_dram(n) verif_malloc(n)
+#define free_dram(p) verif_free(p)
+#endif
+"""
+
+
 def _exo_libs():
     import exo
 
@@ -164,7 +173,11 @@ def build_and_run(c_text, h_text, driver, name="gen", extra_flags=(), cc="gcc", 
         open(os.path.join(wd, "verif_alloc.h"), "w").write(ALLOC_H)
         open(os.path.join(wd, "driver.c"), "w").write(driver)
         libs = _exo_libs()
-        extra_src = [os.path.join(libs, "custom_malloc.c")] if "custom_malloc.h" in c_text else []
+        # MDRAM: the memory class's alloc/free text is under test, not the library allocator
+        # (custom_malloc.c needs an application-side init_mem() and a fixed heap): a stub header
+        # in the build directory routes malloc_dram/free_dram to the counting allocator.
+        open(os.path.join(wd, "custom_malloc.h"), "w").write(MDRAM_STUB_H)
+        extra_src = []
         cmd = [cc, *SAN_FLAGS, *extra_flags, "-I", libs, "-include", "verif_alloc.h", f"{name}.c", "driver.c", *extra_src, "-lm", "-o", "t.exe"]
         r.cmd = " ".join(cmd)
         cp = subprocess.run(cmd, cwd=wd, capture_output=True, text=True, timeout=120)
@@ -189,6 +202,7 @@ def syntax_check(c_text, h_text, name="gen", cc="gcc", workroot=None):
     try:
         open(os.path.join(wd, f"{name}.c"), "w").write(c_text)
         open(os.path.join(wd, f"{name}.h"), "w").write(h_text)
+        open(os.path.join(wd, "custom_malloc.h"), "w").write("#include <stdlib.h>\n#define malloc_dram(n) malloc(n)\n#define free_dram(p) free(p)\n")
         open(os.path.join(wd, "honly.c"), "w").write(f'#include "{name}.h"\n#include "{name}.h"\nint verif_dummy;\n')
         flags = ["-std=c11", "-fsyntax-only", "-Wall", "-Wno-unused", "-Werror=incompatible-pointer-types", "-Werror=discarded-qualifiers",
                  "-Werror=implicit-function-declaration", "-Werror=int-conversion", "-mavx2", "-mfma", "-mavx512f"]
